@@ -244,3 +244,30 @@ def check(tier):
                          "MySQL manual: SET SESSION v = DEFAULT assigns the current global value, SET GLOBAL v = DEFAULT the compiled-in default",
                          "type class expected from SELECT @@v: bool/int -> signed integer, uint -> unsigned integer, double -> float, enum/set/string -> string"])
         return rc
+
+
+def replay(path):
+    """Re-run a recorded disagreement: a behaviour prefix (binding A) or one variable's SET history (binding B)."""
+    rec = json.load(open(path))
+    det = rec["first"]["detail"]
+    binp = lib.build("c44")
+    with lib.Scratch() as sc:
+        if det.get("behaviour"):
+            p = os.path.join(sc, "b.ndjson")
+            lib.write_ndjson(p, det["behaviour"])
+            rr = lib.run_report([binp, "-mode", "replay", "-in", p])
+            for mm in rr["mismatches"]:
+                print("VIOLATION property=C44 replay=%s" % path)
+                print(json.dumps({"signature": mm["signature"], "sql": mm["input"]["sql"], "expected": mm["expected"], "got": mm["got"]})[:2000])
+            return 1 if rr["mismatches"] else 0
+        desc = os.path.join(sc, "sysvars_desc.ndjson")
+        lib.run_report([binp, "-mode", "desc", "-out", desc])
+        descs = {d["name"]: d for d in lib.read_ndjson(desc)}
+        os.environ["VERIF_SEED"] = str(det.get("seed", lib.seed()))
+        p, _ = record(binp, sc, "replay", shards=1, vars_={det["var"]}, sample=0)
+        mms, _, evs = validate_trace(p, desc, sc, "replay", nchunks=1)
+        for m in mms:
+            ev = evs[m["line"]]
+            print("VIOLATION property=C44 replay=%s" % path)
+            print(json.dumps({"signature": sig_b(ev, m, descs[ev["var"]]), "sql": ev["sql"], "out": ev["out"], "session": ev["a"], "global": ev["g"], "expected": m["exp"]})[:2000])
+        return 1 if mms else 0
